@@ -125,17 +125,39 @@ func (r Rec) condLeaves() []interface{} {
 
 // createLeaves: an inserted struct binds every column in field order, the
 // timestamps (items), and the primary key last when it is set.
-func (r Rec) createLeaves(m Mode) []interface{} {
+func (r Rec) createLeaves(m Mode) []interface{} { return r.createLeavesCols(m, "", nil) }
+
+// written: does a create/update restricted by Select(cols…)/Omit(cols…) write the plain column col?
+func written(col, mode string, cols []string) bool {
+	switch mode {
+	case "select":
+		return has(cols, col)
+	case "omit":
+		return !has(cols, col)
+	}
+	return true
+}
+
+// createLeavesCols: Select keeps the selected columns plus the tracked-time
+// columns (not deleted_at, not the primary key); Omit drops the omitted ones.
+func (r Rec) createLeavesCols(m Mode, mode string, cols []string) []interface{} {
 	var out []interface{}
 	for i, col := range columnsOf(r.Table) {
+		if !written(col.name, mode, cols) {
+			continue
+		}
 		if i < len(r.F) && r.F[i] != nil {
 			out = append(out, r.F[i].Leaves()...)
 		} else if bindsZero(col.kind) {
 			out = append(out, zeroLeaf(col.kind))
 		}
 	}
-	out = append(out, createdLeaves(r.Table, m)...)
-	if r.ID != 0 {
+	tracked := createdLeaves(r.Table, m)
+	if mode == "select" && r.Table == "items" {
+		tracked = tracked[:2] // deleted_at is not a tracked-time column: only written when selected
+	}
+	out = append(out, tracked...)
+	if r.ID != 0 && mode != "select" {
 		out = append(out, r.ID)
 	}
 	return out
@@ -266,7 +288,18 @@ func (c *Chain) topExprs(m Mode) []topExpr {
 		}
 		return in
 	}
+	var scoped []topExpr
 	for _, cd := range c.Conds {
+		switch cd.Op {
+		case "whereclause": // Clauses(clause.Where{Exprs}): every expression is a top-level condition of its own
+			for _, sub := range cd.U.Cl.Sub {
+				out = append(out, topExpr{leaves: clLeaves(sub, m)})
+			}
+			continue
+		case "scope": // Scopes run when the finisher executes: after every condition given by then
+			scoped = append(scoped, topExpr{leaves: unitLeaves(cd.U, m)})
+			continue
+		}
 		e := topExpr{loneOr: cd.Op == "or", leaves: unitLeaves(cd.U, m)}
 		if cd.Op == "where" {
 			e.inner = group(cd.U)
@@ -276,7 +309,7 @@ func (c *Chain) topExprs(m Mode) []topExpr {
 	if c.Inline != nil {
 		out = append(out, topExpr{leaves: unitLeaves(*c.Inline, m), inner: group(*c.Inline)})
 	}
-	return out
+	return append(out, scoped...)
 }
 
 func (c *Chain) softDelete() bool { return c.Base == "item" && !c.Unscoped }
@@ -311,6 +344,9 @@ func (c *Chain) queryLeaves(m Mode) []interface{} {
 		limit := c.Limit
 		if c.Fin == "first" || c.Fin == "take" || c.Fin == "last" {
 			limit = 1
+		}
+		if c.Fin == "batches" {
+			limit = c.FindBatch
 		}
 		if limit > 0 {
 			out = append(out, int64(limit))
@@ -350,9 +386,21 @@ func (c *Chain) Expected(m Mode) []interface{} {
 		hooks := (c.UpKind == "update" || c.UpKind == "updates-map" || c.UpKind == "updates-struct") && !c.SkipHooks
 		tracked := model && hooks
 		if c.SetRec != nil {
-			out = append(out, c.SetRec.condLeaves()...)
+			for i, col := range columnsOf(c.SetRec.Table) {
+				switch f := c.SetRec.F[i]; {
+				case !written(col.name, c.ColMode, c.Cols):
+				case f != nil:
+					out = append(out, f.Leaves()...)
+				case c.ColMode == "select" && bindsZero(col.kind): // a selected field is written even when zero
+					out = append(out, zeroLeaf(col.kind))
+				}
+			}
 		} else {
-			out = append(out, setLeaves(c.SetKeys, c.SetVals, m)...)
+			for i, k := range c.SetKeys {
+				if written(k, c.ColMode, c.Cols) {
+					out = append(out, argLeaves(c.SetVals[i], false, m)...)
+				}
+			}
 		}
 		if tracked {
 			out = append(out, touchedLeaves(table, m)...)
@@ -391,7 +439,18 @@ func (c *Chain) Expected(m Mode) []interface{} {
 		return append(out, touchedLeaves(c.Rows[0].Table, m)...) // ON CONFLICT DO UPDATE SET <update time>=?, col=excluded.col…
 	case "firstor":
 		if c.Fin == "firstorcreate" {
-			return c.Rows[0].createLeaves(m) // nothing matches: the condition's fields become the new record
+			// nothing matches: the condition's fields, then Attrs, then Assign become the new record
+			merged := Rec{Table: c.Rows[0].Table, F: append([]*Val(nil), c.Rows[0].F...)}
+			for _, over := range []*Rec{c.Attrs, c.Assign} {
+				if over != nil {
+					for i, f := range over.F {
+						if f != nil {
+							merged.F[i] = f
+						}
+					}
+				}
+			}
+			return merged.createLeaves(m)
 		}
 		return c.firstOrSelectLeaves(m)
 	case "raw", "exec":
@@ -416,15 +475,21 @@ func (c *Chain) createLeaves(rows []Rec, m Mode) []interface{} {
 	switch c.CrKind {
 	case "struct", "slice":
 		for _, r := range rows {
-			out = append(out, r.createLeaves(m)...)
+			out = append(out, r.createLeavesCols(m, c.ColMode, c.Cols)...)
 		}
 	case "map":
-		out = append(out, setLeaves(c.MapRows[0].Keys, c.MapRows[0].Vals, m)...)
+		for i, k := range c.MapRows[0].Keys {
+			if written(k, c.ColMode, c.Cols) {
+				out = append(out, argLeaves(c.MapRows[0].Vals[i], false, m)...)
+			}
+		}
 	case "maps":
 		colset := map[string]bool{}
 		for _, r := range c.MapRows {
 			for _, k := range r.Keys {
-				colset[k] = true
+				if written(k, c.ColMode, c.Cols) {
+					colset[k] = true
+				}
 			}
 		}
 		cols := make([]string, 0, len(colset))
@@ -476,6 +541,17 @@ type Plan struct {
 
 // Plan predicts the statements and their bound values.
 func (c *Chain) Plan(m Mode) Plan {
+	// Owner's AfterCreate hook sends one statement per created record, right after the INSERT
+	hook := func(n int) [][]interface{} {
+		if c.Base != "owner" || c.SkipHooks {
+			return nil
+		}
+		out := make([][]interface{}, n)
+		for i := range out {
+			out[i] = []interface{}{int64(0), int64(-1)}
+		}
+		return out
+	}
 	switch {
 	case c.Batched():
 		var p Plan
@@ -485,18 +561,26 @@ func (c *Chain) Plan(m Mode) Plan {
 			if end > len(c.Rows) {
 				end = len(c.Rows)
 			}
-			p.Dry = append(p.Dry, c.createLeaves(c.Rows[i:end], m))
-			p.DryAt = append(p.DryAt, len(p.Dry)-1)
+			ins := c.createLeaves(c.Rows[i:end], m)
+			p.Dry = append(p.Dry, ins)
+			p.DryAt = append(p.DryAt, len(p.Real))
+			p.Real = append(append(p.Real, ins), hook(end-i)...)
 		}
-		p.Real = p.Dry
 		return p
 	case c.Kind == "firstor" && c.Fin == "firstorcreate":
 		ins := c.Expected(m)
-		return Plan{Dry: [][]interface{}{ins}, Real: [][]interface{}{c.firstOrSelectLeaves(m), ins}, DryAt: []int{1}}
+		return Plan{Dry: [][]interface{}{ins}, Real: append([][]interface{}{c.firstOrSelectLeaves(m), ins}, hook(1)...), DryAt: []int{1}}
 	}
 	e := c.Expected(m)
-	return Plan{Dry: [][]interface{}{e}, Real: [][]interface{}{e}, DryAt: []int{0},
+	p := Plan{Dry: [][]interface{}{e}, Real: [][]interface{}{e}, DryAt: []int{0}, Hidden: c.HiddenQuery(),
 		ExtraReal: c.Kind == "save" && c.CrKind == "struct" && c.Rows[0].ID != 0}
+	switch {
+	case c.Kind == "create" && (c.CrKind == "struct" || c.CrKind == "slice"):
+		p.Real = append(p.Real, hook(len(c.Rows))...)
+	case c.Kind == "save" && (c.CrKind == "slice" || c.Rows[0].ID == 0):
+		p.Real = append(p.Real, hook(len(c.Rows))...)
+	}
+	return p
 }
 
 // ---- walking the description ------------------------------------------------------------------
@@ -675,6 +759,11 @@ func (w *walker) chain(c *Chain) {
 	if c.Having != nil {
 		w.unit(*c.Having, "having")
 	}
+	for _, r := range []*Rec{c.Attrs, c.Assign} {
+		if r != nil {
+			w.rec(*r)
+		}
+	}
 	if c.OrderExpr != nil {
 		w.info.Classes["order:expr"] = true
 		w.tmpl(c.OrderExpr)
@@ -788,6 +877,16 @@ func (c *Chain) Describe(literalLimit bool) Info {
 	w.info.Classes["base:"+c.Base] = true
 	if c.SkipHooks {
 		w.info.Classes["session:skiphooks"] = true
+	}
+	for flag, on := range map[string]bool{"session:allow-global-update": c.AllowGlobal, "distinct": c.Distinct, "value:ptr-elems": c.PtrElems,
+		"value:map-ptr": c.MapPtr, "value:struct-ptr": c.SetPtr, "firstor:attrs": c.Attrs != nil, "firstor:assign": c.Assign != nil, "firstor:model": c.WithModel,
+		"hook:after-create": c.Base == "owner" && !c.SkipHooks && (c.Kind == "create" && c.CrKind != "map" && c.CrKind != "maps" || c.Kind == "save" || c.Fin == "firstorcreate")} {
+		if on {
+			w.info.Classes[flag] = true
+		}
+	}
+	if c.ColMode != "" {
+		w.info.Classes["columns:"+c.ColMode+"-"+c.Kind] = true
 	}
 	return w.info
 }
